@@ -21,7 +21,7 @@ RULE = ('(i) value level: pairs (v1, v2) of JSON-like values / parameter objects
         'argument of a parameter object) of one task of a generated pipeline is changed, or an input is rewired to another computation; every task in '
         '{U} U descendants(U) must move and no other task may. (iii) over everything observed in a case the map location -> computation descriptor must be '
         'a function. non-trivial = pair whose frozen-scheme texts differ in <= 3 characters or graph case with >=1 descendant; distinct = hash of the pair / case')
-REQUIRED = ['long_value_pairs', 'object_value_pairs', 'value_pairs', 'near_pairs', 'graph_cases', 'moved_tasks_checked', 'unmoved_tasks_checked', 'object_arg_mutations', 'rewirings',
+REQUIRED = ['long_value_pairs', 'object_value_pairs', 'default_elision_pairs', 'value_pairs', 'near_pairs', 'graph_cases', 'moved_tasks_checked', 'unmoved_tasks_checked', 'object_arg_mutations', 'rewirings', 'same_dir_cases',
             'locations_in_injectivity_check']
 ASSUMPTIONS = ['pairs that Python considers equal (1 == 1.0 == True, -0.0 == 0.0) and NaN are not used',
                'known finding (open): strings are quoted without escaping in the key text, so values whose frozen 1.4.0 texts coincide and that contain a single '
@@ -165,6 +165,23 @@ def key_of(value, tmp, via='param', other=None):
     return chain['value_probe'].name_for_persistence
 
 
+def key_with_default(default, value, tmp):
+    """storage key of a one-task chain whose parameter `d` (dropped from the key when it has its default value) has the given default and value"""
+    from taskchain import Config, Task
+    from taskchain.parameter import Parameter
+    ck = 'D' + json.dumps(default, sort_keys=True)
+    if ck not in _TASK:
+        class DefaultProbe(Task):
+            class Meta:
+                parameters = [Parameter('p', default=0), Parameter('d', default=copy.deepcopy(default), dont_persist_default_value=True)]
+
+            def run(self) -> int:
+                return 0
+        _TASK[ck] = DefaultProbe
+    chain = Config(tmp, name='probe', data={'tasks': [_TASK[ck]], 'd': copy.deepcopy(value)}).chain()
+    return chain['default_probe'].name_for_persistence
+
+
 WITNESS_PAIRS = [(['a', 'b'], ["a', 'b"]), ("x", "x"), ({'k': "v', 'k2': 'w"}, {'k': 'v', 'k2': 'w'})]
 
 
@@ -192,6 +209,22 @@ def run_value_pairs(rng, n, res: CaseResult, witness=False):
                 pairs.append(({'class': 'tc_verif.lab.runtime.LabObj', 'kwargs': {'a': base}}, {'class': 'tc_verif.lab.runtime.LabObj', 'kwargs': {'a': base[:-1] + [0.5]}}, None))
                 res.count('long_value_pairs', 4)
             if rng.random() < 0.1:
+                # a parameter that is left out of the key when it has its default value: only the default itself may be left out
+                dflt = rng.choice([[gen_leaf(rng) for _ in range(rng.randint(1, 4))], {'k': gen_leaf(rng), 'j': [1, 2]}, 'abc', 3, [[1, 2], [3]]])
+                vals = []
+                if isinstance(dflt, list):
+                    vals += [dflt[:k] for k in range(len(dflt))] + [dflt + [gen_leaf(rng)], dflt + dflt, [dflt], dflt[::-1]]
+                elif isinstance(dflt, dict):
+                    vals += [{'k': dflt['k']}, {**dflt, 'z': 0}, {}, list(dflt)]
+                elif isinstance(dflt, str):
+                    vals += [dflt[:-1], dflt + 'd', '', [dflt], list(dflt)]
+                else:
+                    vals += [dflt + 1, str(dflt), [dflt], None]
+                for v in vals:
+                    if py_unequal(v, dflt) is True:
+                        pairs.append(((dflt, dflt), (dflt, v), 'dflt'))
+                        res.count('default_elision_pairs')
+            if rng.random() < 0.1:
                 # parameter objects: every constructor argument that is not declared ignorable distinguishes; a subclass that adds constructor
                 # arguments next to an instance of its parent class (the parent's representation is computed first)
                 O, OS = 'tc_verif.lab.runtime.LabObj', 'tc_verif.lab.runtime.LabObjSub'
@@ -207,6 +240,17 @@ def run_value_pairs(rng, n, res: CaseResult, witness=False):
                 pairs.append(({'class': OS, 'kwargs': {'a': x, 'b': 'z', 'limit': l1}}, {'class': OS, 'kwargs': {'a': x, 'b': 4, 'limit': l1}}, 'obj'))
                 res.count('object_value_pairs', 6)
         for a, b, mode in pairs[:n + 4]:
+            if mode == 'dflt':
+                try:
+                    k1, k2 = key_with_default(a[0], a[1], tmp), key_with_default(b[0], b[1], tmp)
+                except Exception as e:
+                    res.inconclusive.append(f'default probe failed for {b!r}: {type(e).__name__}: {e}')
+                    continue
+                res.count('value_pairs')
+                if k1 == k2:
+                    res.violate(f'parameter with default {a[0]!r} (not persisted when it has the default value): the unequal value {b[1]!r} gets the same storage key {k1} as the default',
+                                witness={'default': a[0], 'value': b[1]}, facts={'tag': 'default_elision'})
+                continue
             if mode == 'two':
                 k1, k2 = key_of(a[0], tmp, other=a[1]), key_of(b[0], tmp, other=b[1])
                 res.count('value_pairs')
@@ -344,6 +388,74 @@ def run_graph_case(rng, res: CaseResult):
         res.nt(jhash([spec['files'], root, witness['changed']]))
 
 
+def run_same_dir_case(rng, res: CaseResult):
+    """two configurations with the SAME config name (the second overrides one parameter through a context) over ONE data directory in which the
+    first one's results exist and were given readable names (symbolic links): locations are compared after resolving links"""
+    spec = S.gen_spec(rng, {'adversarial_strings': False})
+    root = S.gen_root(rng, spec)
+    ref = Ref(spec, root)
+    if ref.error is not None or len(ref.tasks) < 2:
+        res.count('generator_rejects')
+        return
+    cands = []
+    for n, t in ref.tasks.items():
+        for pn, v in t['persisted'].items():
+            p = next(p for p in t['spec']['params'] if p['name'] == pn)
+            nic = p.get('name_in_config') or pn
+            if not isinstance(v, tuple) and not (isinstance(v, dict) and 'class' in v):
+                cands.append((n, pn, nic, t, v))
+    if not cands:
+        res.count('generator_rejects')
+        return
+    n, pn, nic, t, old = rng.choice(cands)
+    new = mutate_deep(rng, old)
+    if py_unequal(json.loads(json.dumps(old)), json.loads(json.dumps(new))) is not True:
+        res.count('generator_rejects')
+        return
+    root2 = copy.deepcopy(root)
+    ns = '::'.join(t['inst']['ns'])
+    data = {'for_namespaces': {ns: {nic: new}}} if ns else {nic: new}
+    root2['context'] = list(root2.get('context') or []) + [{'kind': 'dict', 'data': data}]
+    root2['context_single'] = len(root2['context']) == 1
+    ref2 = Ref(spec, root2)
+    if ref2.error is not None or set(ref2.tasks) != set(ref.tasks):
+        res.count('generator_rejects')
+        return
+    moved_expected = {m for m in ref.tasks if ref.tasks[m]['descriptor'] != ref2.tasks[m]['descriptor']}
+    if n not in moved_expected:
+        res.count('generator_rejects')
+        return
+    names = list(ref.tasks)
+    steps = [{'op': 'build', 'chain': 'c1', 'root': root}] + [{'op': 'value', 'chain': 'c1', 'task': m} for m in names] + \
+            [{'op': 'inspect', 'chain': 'c1', 'what': 'readable'}, {'op': 'snapshot', 'chain': 'c1'}, {'op': 'build', 'chain': 'c2', 'root': root2}]
+    with Lab(spec) as lab:
+        r = lab.run(steps)
+    if session_problem(r):
+        res.inconclusive.append(session_problem(r))
+        return
+    st = r['steps']
+    if not all(o['ok'] for o in st):
+        res.count('build_failed_not_judged_here')
+        return
+    res.count('same_dir_cases')
+    s1, s2 = st[-2]['snapshot']['tasks'], st[-1]['snapshot']['tasks']
+    witness = {'spec': spec, 'root': root, 'second_root_context': data, 'task': n}
+    for m in ref.tasks:
+        if ref.tasks[m]['spec']['data_kind'] == 'memory':
+            continue
+        l1, l2 = s1[m].get('real_rel_path'), s2[m].get('real_rel_path')
+        if m in moved_expected:
+            res.count('moved_tasks_checked')
+            if l1 == l2:
+                res.violate(f'{m}: with {nic} of {n} overridden from {old!r} to {new!r} by a context (same config name, same data directory, results of the first '
+                            f'configuration stored and linked under readable names) the task still resolves to the first configuration\'s file {l1} '
+                            f'(data_path {s2[m]["rel_path"]})', witness=witness, facts={'tag': 'not_moved_same_dir'})
+        else:
+            res.count('unmoved_tasks_checked')
+    if len(moved_expected) > 1:
+        res.nt(jhash([spec['files'], root, data]))
+
+
 def run_rewire_case(rng, res: CaseResult):
     """same task, one input bound to another computation of the same name (other mount) -> location must differ"""
     spec, roots = S.twin_spec(rng)
@@ -390,6 +502,9 @@ def run_case(case) -> CaseResult:
             run_graph_case(rng, res)
             if res.sample is None and res.violations == []:
                 res.sample = {'kind': 'graph'}
+    elif case['kind'] == 'same_dir':
+        for _ in range(case['n']):
+            run_same_dir_case(rng, res)
     else:
         for _ in range(case['n']):
             run_rewire_case(rng, res)
@@ -408,3 +523,5 @@ def cases(tier, seed):
             yield {'kind': 'graph', 'n': 4, 'seed': rng.randrange(1 << 30)}
         if i % 4 == 0:
             yield {'kind': 'rewire', 'n': 3, 'seed': rng.randrange(1 << 30)}
+        if i % 4 == 1 and i < ng:
+            yield {'kind': 'same_dir', 'n': 3, 'seed': rng.randrange(1 << 30)}
